@@ -23,12 +23,10 @@ verus! {
 //@part dims
 //@part number
 //@part substance_stub
-#[verifier::external_body]
-pub struct Expr {
-    e: u8,
-}
+//@part ast
 //@part registry_types
 //@part lookup
+//@part canon
 //@autoslots
 } // verus!
 fn main() {}
